@@ -510,3 +510,65 @@ def replay_qdq(case):
 
 
 REPLAY = {"purity_machine": replay_case, "query_derive_query": replay_qdq}
+
+
+# ------------------------------------------------------------------------------------------- process-wide constant tables
+@st.composite
+def table_case(draw, tier="quick"):
+    q = st.one_of(st.tuples(st.just("delta"), st.integers(1, 3), st.integers(1, 3)), st.tuples(st.just("eps"), st.integers(1, 4), st.booleans())).map(list)
+    return {"queries": draw(st.lists(q, min_size=3, max_size=8))}
+
+
+def run_tables(c):
+    """Answers that are served from process-wide tables (Levi-Civita and generalized Kronecker tensors, used by every join/meet)
+    must not depend on which tables were asked for before: a sequence of constructor queries starting from empty tables, every
+    answer compared entry by entry with the definition; earlier answers stay intact; the first query re-asked at the end."""
+    from itertools import product
+
+    from .. import exact as X
+    from ..runner import Checker
+
+    for cls in (LeviCivitaTensor, KroneckerDelta):
+        cache = getattr(cls, "_cache", None)
+        if isinstance(cache, dict):
+            cache.clear()  # every case starts from the same process state (replayable)
+    ck = Checker()
+    answers = []
+    qs = [tuple(q) for q in c["queries"]]
+    for i, q in enumerate(qs + qs[:1]):
+        if q[0] == "delta":
+            _, n, p = q
+            if not (1 <= n <= 3 and 1 <= p <= 3):
+                raise Skip("malformed")
+            t = KroneckerDelta(n, p)
+            shape = (n,) * (2 * p)
+            entry = lambda idx: X.kron_delta_entry(idx[:p], idx[p:])  # noqa: E731
+            want_ts = (p, p)
+        else:
+            _, n, cov = q
+            if not 1 <= n <= 4:
+                raise Skip("malformed")
+            t = LeviCivitaTensor(n, bool(cov))
+            shape = (n,) * n
+            entry = lambda idx: X.perm_sign(idx)  # noqa: E731
+            want_ts = (n, 0) if cov else (0, n)
+        site = f"tables:{q[0]}:after-{len(answers)}-queries"
+        arr = np.asarray(t.array)
+        if not ck.check(arr.shape == shape, site + ":shape", (list(q), arr.shape, shape, [list(x) for x in qs[:i]])):
+            continue
+        bad = [idx for idx in product(*[range(k) for k in shape]) if int(arr[idx]) != entry(idx)]
+        ck.check(not bad, site + ":entries", (list(q), bad[:2], [list(x) for x in qs[:i]]))
+        ck.check(t.tensor_shape == want_ts, site + ":tensor_shape", (list(q), t.tensor_shape))
+        answers.append((q, t, arr.copy()))
+    for q, t, before in answers:
+        ck.check(np.array_equal(np.asarray(t.array), before), f"tables:{q[0]}:earlier-answer-changed", list(q))
+    return ck.result()
+
+
+LAWS.append(
+    Law("constant_tables", lambda tier: table_case(tier), run_tables, lambda c: len({tuple(q) for q in c["queries"]}) > 1,
+        lambda c: (["delta-with-swapped-sizes"] if any(q[0] == "delta" and q[1] != q[2] and ["delta", q[2], q[1]] in [list(x) for x in c["queries"]] for q in c["queries"]) else [])
+        + (["delta-p>n"] if any(q[0] == "delta" and q[2] > q[1] for q in c["queries"]) else []),
+        {"quick": 600, "thorough": 8000}, "sequences of LeviCivitaTensor / KroneckerDelta queries from empty process-wide tables: every answer equals its definition", shard=150,
+        mandatory=("delta-with-swapped-sizes", "delta-p>n"))
+)
